@@ -16,10 +16,11 @@ pub fn step_budget(len: usize) -> usize {
 
 pub fn parse_verdict<S: Src, K: Skel>(s: &mut S) -> Verdict {
     let p = K::build_cl(s);
-    let want = spec::accepts(&p);
+    let mut lay = spec::Layout::new();
+    let want = spec::accepts(&p, &mut lay);
     // the oracle must agree with what the skeleton is by construction
     let want_ok = match want {
-        spec::Acc::Yes(_) => true,
+        spec::Acc::Yes => true,
         spec::Acc::No => false,
         spec::Acc::TooBig => {
             vassert!(false, "ORACLE: skeleton larger than the oracle's tables");
@@ -36,7 +37,7 @@ pub fn parse_verdict<S: Src, K: Skel>(s: &mut S) -> Verdict {
         Ok(pp) => {
             vassert!(K::ACCEPT, "parse accepted a packet that is not well-formed");
             vassert!(slices_eq(pp.packet(), &p), "parse: the parsed packet holds exactly the input bytes");
-            if let spec::Acc::Yes(lay) = want {
+            if want == spec::Acc::Yes {
                 vassert!(pp.offset_question == Some(12), "parse: question offset");
                 vassert!(pp.offset_answers == if lay.counts[1] > 0 { Some(lay.sect_start[1]) } else { None }, "parse: answer section offset");
                 vassert!(pp.offset_nameservers == if lay.counts[2] > 0 { Some(lay.sect_start[2]) } else { None }, "parse: authority section offset");
